@@ -4,12 +4,12 @@ import json, glob, os, re, sys
 res = {}
 src = sys.argv[1] if len(sys.argv) > 1 else "/tmp/seedcheck.txt"
 for l in open(src):
-    m = re.match(r"(C\d\d-m\d+): exit=(\d+) caught_by=\[(.*)\]", l)
+    m = re.match(r"(C\d\d-[mx]\d+): exit=(\d+) caught_by=\[(.*)\]", l)
     if m:
         res[m.group(1)] = m.group(3).strip()
 print("| seed | change (first sentence of the author's summary) | reported by |")
 print("|------|--------------------------------------------------|-------------|")
-for d in sorted(glob.glob("/verif/seeded/C*-m*")):
+for d in sorted(glob.glob("/verif/seeded/C*-[mx]*")):
     name = os.path.basename(d)
     meta = json.load(open(os.path.join(d, "meta.json")))
     s = meta.get("summary", "").replace("|", "\\|").replace("\n", " ")
